@@ -79,10 +79,46 @@ def event_exprs(ev):
     return []
 
 
+def says_nonnull(c, pol, var):
+    """condition c, taken with polarity pol, says that var is not NULL (one of its conjuncts does)"""
+    if isinstance(c, dict) and c.get('k') == 'bin' and c.get('op') == ('&&' if pol else '||'):
+        return says_nonnull(c['l'], pol, var) or says_nonnull(c['r'], pol, var)
+    r = rel(c, pol)
+    return bool(r) and is_var(r[0], var) and r[1] == '!=' and const_of(r[2]) == 0
+
+
 def derefs_of(e, var):
     """Sub-expressions of e that dereference variable `var` (var[i], *var, var->f)."""
     out = []
+
+    def nonnull_test(c, pol):
+        """c, taken with polarity pol, says that var is not NULL (one of its conjuncts does)"""
+        if isinstance(c, dict) and c.get('k') == 'bin' and c.get('op') == ('&&' if pol else '||'):
+            return nonnull_test(c['l'], pol) or nonnull_test(c['r'], pol)
+        r = rel(c, pol)
+        return bool(r) and is_var(r[0], var) and r[1] == '!=' and const_of(r[2]) == 0
+
+    def shielded(e):
+        """sub-expressions evaluated only when var is known not to be NULL: the right operand of `var && ...` / `!var || ...`,
+        the selected arm of `var ? ... : ...`"""
+        sh = []
+        for x in walk(e):
+            if x.get('k') == 'bin' and x.get('op') == '&&' and nonnull_test(x['l'], True):
+                sh.append(x['r'])
+            elif x.get('k') == 'bin' and x.get('op') == '||' and nonnull_test(x['l'], False):
+                sh.append(x['r'])
+            elif x.get('k') == 'cond' and nonnull_test(x.get('c'), True):
+                sh.append(x.get('t'))
+            elif x.get('k') == 'cond' and nonnull_test(x.get('c'), False):
+                sh.append(x.get('f'))
+        return sh
+    skip = set()
+    for sub in shielded(e):
+        for y in walk(sub):
+            skip.add(id(y))
     for x in walk(e):
+        if id(x) in skip:
+            continue
         k = x.get('k')
         if k == 'idx' and is_var(x['base'], var):
             out.append(x)
@@ -146,6 +182,12 @@ class Deref(object):
                 if (st == 'null') != (r[1] == '=='):
                     return None
                 return st
+            if st in ('maybe', 'null') and r and is_var(r[0]) and r[0].get('sc') == 'local' and r[0]['name'] not in names and r[1] == '!=' and const_of(r[2]) == 0:
+                # a flag computed from the pointer: `named = (p != NULL && p[0] != 0); ... if (named) use(p)` - on a path
+                # that found the pointer NULL the flag is clear and this edge cannot be taken
+                d = fn.single_def(r[0]['name'])
+                if d and isinstance(d[1], dict) and any(says_nonnull(d[1], True, n) for n in names):
+                    return None if st == 'null' else 'nonnull'
             if st != 'maybe':
                 return st
             if r and is_var(r[0]) and r[0]['name'] in names and const_of(r[2]) == 0:
